@@ -101,7 +101,7 @@ fn channels<T: DeserializeOwned + PartialEq + Debug>(text: &str) -> (bool, Optio
                             Ok(Err(e)) => format!("rejected: {e}"),
                             Err(p) => format!("panic: {p}"),
                         };
-                        detail = Some(format!("damaged content, channel {ch}: str {} / this {} / text {}", show(&reference), show(&r), &t[..t.len().min(300)]));
+                        detail = Some(format!("damaged content, channel {ch}: str {} / this {} / text {}", show(&reference), show(&r), t.chars().take(300).collect::<String>()));
                     }
                 }
             }
